@@ -338,7 +338,12 @@ def run_series_functions(cx):
         kinds = {}
         for (bb, dv, g) in rets:
             if dv[0] == 'const' and (dv[1] != dv[1] or str(dv[1]).lower() == 'nan'):
-                ok, _ = cx.all_paths(b, bb, lambda has: has(f'(lt (param x) (index {X} 0))', True) or has(f'(lt (index {X} (sub (len {X}) 1)) (param x))', True))
+                # the end abscissae read directly or through x_min() / x_max() (which are x[0] and the last x: checked here as well)
+                bmin, bmax = cx.fn(f'{S1}::x_min'), cx.fn(f'{S1}::x_max')
+                acc = bmin is not None and bmax is not None and match(f'(index {X} 0)', cx.retval(bmin)) is not None and \
+                    (match(f'(last {X})', cx.retval(bmax)) is not None or match(f'(index {X} (sub (len {X}) 1))', cx.retval(bmax)) is not None)
+                ok, _ = cx.all_paths(b, bb, lambda has: has(f'(lt (param x) (index {X} 0))', True) or has(f'(lt (index {X} (sub (len {X}) 1)) (param x))', True) or
+                                     (acc and (has('(lt (param x) (call *Series1::x_min (param self)))', True) or has('(lt (call *Series1::x_max (param self)) (param x))', True))))
                 kinds['nan-outside'] = ok
             elif match(f'(index {Y} (unwrap {SEARCH}))', dv) is not None:
                 kinds['knot'] = cx.guarded(b, bb, f'(is {SEARCH} Ok)', True) is not None
